@@ -9,6 +9,11 @@ struct SynthInfo {
 	uint32_t blockId = 0;
 	uint64_t tape = 0;             // hash of the sequence of (field kind, size, is-reference, is-string) the reader asked for
 	std::vector<int> scalarKinds;  // FieldKind (or -1 untyped, -2 reference, -3 string) of every scalar transfer, by ordinal
+	// block-level round trip of the synthesised instance, done when asked for (wantRoundTrip): w1 = Put(instance),
+	// w2 = Put(Load(w1)), w3 = Put(Load(w2)); stable means w3 = w2 (what the library wrote re-encodes to itself)
+	std::string served;            // the bytes the generator handed to the reader for this block, in order
+	bool wantRoundTrip = false;
+	int roundTrip = -1;            // -1 not done / not possible, 0 stable, 1 unstable
 };
 std::vector<std::string> allBlockTypes();
 const std::vector<std::pair<std::string, nifly::NiVersion>>& synthVersions();
